@@ -91,6 +91,7 @@ type world struct {
 	main    *cluster.RaftCluster
 	reader  *core.Storage
 	threads map[int]*thread
+	early   int         // storage writes made by a thread before it reached c.Lock()
 	par     int         // operations still to be issued while a flush runs in its own goroutine
 	parDone chan string // its result
 }
@@ -369,6 +370,11 @@ func (w *world) exec(o *hop) string {
 			case err := <-th.done:
 				th.rc.RUnlock()
 				return resObs(err)
+			case <-th.kv.parked:
+				// a storage write before the thread reached c.Lock(): not a section of the modelled protocol; it is let
+				// through as part of this label, so that the snapshot that follows shows what it did to storage
+				w.early++
+				th.kv.release <- struct{}{}
 			default:
 			}
 			if th.rc.TryRLock() {
@@ -673,6 +679,7 @@ func genCase(r *rng.R, opt *config.PersistOptions, wb, enc bool, a c07x.Alphabet
 	if wb {
 		g.step(hop{K: "flush"})
 	}
+	c.tags["early-storage-write"] += w.early
 	return c
 }
 
@@ -741,6 +748,25 @@ func flushRaceCase(opt *config.PersistOptions) hcase {
 	g.raw(hop{K: "hb", R: &b}) // displaces region 1 while the flush is in progress
 	g.raw(hop{K: "snap", IDs: g.idList()})
 	g.step(hop{K: "flush"})
+	return c
+}
+
+// the check-then-put window: stream A (a new id, older in version than what stream B is about to put over its range) passes the
+// first PreCheckPutRegion and waits at c.Lock(); B is processed completely; A is then rejected by the check under the lock.
+// Nothing of A may have reached the cache or storage.
+func checkThenPutCase(opt *config.PersistOptions, wb bool) hcase {
+	c := hcase{WB: wb, tags: map[string]int{"directed:check-then-put-window": 1}}
+	w := newWorld(wb, opt)
+	defer w.close()
+	g := &gen{r: rng.New(1), w: w, c: &c, ids: map[uint64]bool{}, last: time.Now()}
+	g.raw(hop{K: "snap"})
+	a := c07x.Region{ID: 3, Start: "b", End: "c", Peers: []c07x.Peer{{ID: 31, Store: 1}, {ID: 32, Store: 2}}, Leader: 31, Size: 10, Ver: 2, ConfVer: 1, Term: 1, Stamp: 1}
+	b := c07x.Region{ID: 1, Start: "a", End: "c", Peers: []c07x.Peer{{ID: 11, Store: 1}, {ID: 12, Store: 2}}, Leader: 11, Size: 10, Ver: 3, ConfVer: 1, Term: 1, Stamp: 2}
+	g.step(hop{K: "begin", T: 1, R: &a})
+	g.step(hop{K: "hb", R: &b})
+	g.step(hop{K: "run", T: 1})
+	g.step(hop{K: "flush"})
+	c.tags["early-storage-write"] += w.early
 	return c
 }
 
@@ -890,6 +916,8 @@ func main() {
 		emit(autoFlushRegression(opt))
 		emit(overtakenSaveProbe(opt, false)) // direct backend only: a save into the write-back batch is not a kv write the harness can park
 		emit(termProbe(opt))
+		emit(checkThenPutCase(opt, false))
+		emit(checkThenPutCase(opt, true))
 		emit(flushRaceCase(opt))
 		emit(flushRaceCase(opt))
 		master := rng.New(*seed)
